@@ -166,9 +166,22 @@ struct FuzzArgs
 	stdout_options: stdout::Options,
 }
 
+/// The parsers and the passes that follow them recurse along the nesting
+/// of the source, and an unoptimized build needs tens of kilobytes per level.
+const COMPILER_STACK_SIZE: usize = 256 * 1024 * 1024;
+
 fn main() -> Result<(), anyhow::Error>
 {
-	let result = do_main();
+	// Do the work on a thread with more room than the main thread has.
+	let worker = std::thread::Builder::new()
+		.name("main".to_string())
+		.stack_size(COMPILER_STACK_SIZE)
+		.spawn(do_main)?;
+	let result = match worker.join()
+	{
+		Ok(result) => result,
+		Err(panic) => std::panic::resume_unwind(panic),
+	};
 	if result.is_err()
 	{
 		stdout::StdOut::new(Default::default());
